@@ -22,7 +22,9 @@ import (
 func newBigFloat() *big.Float { return new(big.Float) }
 
 var (
-	strPool      = []string{"", "a", "b", "x y", "ünï", "zz", "0", "q\"uo\\te\nline", "a", strings.Repeat("long-", 700)}
+	// strings that differ from one another only by surrounding whitespace or a trailing newline, by case,
+	// by a prefix; words that read like other types
+	strPool      = []string{"", "a", "b", "x y", "ünï", "zz", "0", "q\"uo\\te\nline", "a", strings.Repeat("long-", 700), "a\n", "\n", " a", "a ", "A", "ab", "\t", "null", "true"}
 	rawBytesPool = []string{"\xff\xfe\x80", "\xc3", "\x00", "a\xffb", "\x00\x00", "\xed\xa0\x80", "ok\xc3"}
 	keyPool      = []string{"k1", "k2", "k3", "key four", "K1", "k.1/é"}
 	int32Pool    = []int64{0, 1, -1, 42, math.MaxInt32, math.MinInt32}
